@@ -1,11 +1,13 @@
 package c15
 
 import (
+	"context"
 	"fmt"
+	"github.com/samsarahq/thunder/batch"
 	"math/rand"
+	"regexp"
 	"sort"
 	"testing"
-	"regexp"
 
 	"github.com/samsarahq/thunder/graphql"
 )
@@ -27,11 +29,55 @@ func TestDbgGen(t *testing.T) {
 				}
 			}()
 			mut := ""
-			for _, f := range c.Feats { if f == "bytes:mutated_query" { mut = "MUT " } }
-			_, err := graphql.Parse(c.Query, c.Vars)
-			k := mut+"ok"
+			for _, f := range c.Feats {
+				if f == "bytes:mutated_query" {
+					mut = "MUT "
+				}
+			}
+			q, err := graphql.Parse(c.Query, c.Vars)
+			k := mut + "ok"
+			if err == nil {
+				sch := zoo
+				if c.Schema == "gw" {
+					sch = gw.schemas["s1"]
+				}
+				typ := sch.Query
+				if q.Kind == "mutation" {
+					typ = sch.Mutation
+				}
+				if perr := graphql.PrepareQuery(context.Background(), typ, q.SelectionSet); perr != nil {
+					k = mut + "PREP " + num.ReplaceAllString(perr.Error(), "N")
+					if len(k) > 90 {
+						k = k[:90]
+					}
+				} else {
+					_, xerr := graphql.NewExecutor(graphql.NewImmediateGoroutineScheduler()).Execute(batch.WithBatching(context.Background()), typ, nil, q)
+					if xerr != nil {
+						k = mut + "EXEC " + num.ReplaceAllString(xerr.Error(), "N")
+						if len(k) > 90 {
+							k = k[:90]
+						}
+					}
+				}
+				if c.Schema == "gw" {
+					q2, _ := graphql.Parse(c.Query, c.Vars)
+					_, _, gerr := gw.exec.Execute(context.Background(), q2, nil)
+					if gerr != nil {
+						k2 := "GW " + num.ReplaceAllString(gerr.Error(), "N")
+						if len(k2) > 90 {
+							k2 = k2[:90]
+						}
+						hist[k2]++
+						if _, ok := ex[k2]; !ok {
+							ex[k2] = c.Query
+						}
+					} else {
+						hist["GW ok"]++
+					}
+				}
+			}
 			if err != nil {
-				k = mut+num.ReplaceAllString(err.Error(), "N")
+				k = mut + num.ReplaceAllString(err.Error(), "N")
 				if len(k) > 90 {
 					k = k[:90]
 				}
@@ -47,7 +93,7 @@ func TestDbgGen(t *testing.T) {
 		ks = append(ks, k)
 	}
 	sort.Slice(ks, func(i, j int) bool { return hist[ks[i]] > hist[ks[j]] })
-	for _, k := range ks[:40] {
+	for _, k := range ks[:60] {
 		fmt.Printf("%5d %q\n      %.300q\n", hist[k], k, ex[k])
 	}
 }
